@@ -233,6 +233,16 @@ def roundtrip_cases():
             "LabelledGraph": lambda P=P: ms.LabelledPointUndirectedGraph.init_from_edges(
                 P, edges, OrderedDict([("zü", np.array([1, 1, 1, 0, 0], bool)), ("a", np.array([0, 0, 1, 1, 1], bool))])),
         }
+        # labelled and plain graphs with every small edge count on 2..4 points (0, 1, 2, 3 edges; chains, a triangle, a self loop)
+        for npts in (2, 3, 4):
+            for ne, es in ((0, []), (1, [[0, 1]]), (2, [[0, 1], [1, npts - 1]] if npts > 2 else [[0, 0], [0, 1]]),
+                           (3, [[0, 1], [1, 2], [0, 2]] if npts > 2 else [[0, 0], [0, 1], [1, 1]])):
+                ea = np.array(es, dtype=int).reshape(-1, 2)
+                Q = P[:npts]
+                half = np.arange(npts) < (npts + 1) // 2
+                shapes["LabelledGraph_%dpts_%dedges" % (npts, ne)] = lambda Q=Q, ea=ea, half=half: ms.LabelledPointUndirectedGraph.init_from_edges(
+                    Q, ea, OrderedDict([("first", half.copy()), ("rest", ~half | (np.arange(len(half)) == 0))]))
+                shapes["PointUndirectedGraph_%dpts_%dedges" % (npts, ne)] = lambda Q=Q, ea=ea: ms.PointUndirectedGraph.init_from_edges(Q, ea)
         for n, f in shapes.items():
             out.append(("ljson %dD %s" % (d, n), "ljson", "rt.ljson", f))
     out.append(("pts", "pts", "rt.pts", lambda: ms.PointCloud(np.array([[0.12345, 10.5], [3.0006, 2.9994], [7.25, 0.0]]))))
@@ -258,10 +268,16 @@ def run_roundtrip(case):
         obj = factory()
         s0 = state(obj) if hasattr(obj, "__dict__") else None
         p = Path(root) / fname
-        export(kind, obj, p)
+        try:
+            export(kind, obj, p)
+        except Exception as e:
+            return label + ": export raised %s: %s" % (type(e).__name__, str(e)[:120])
         if s0 is not None and same(s0, state(obj)):
             return label + ": export modified the object: " + same(s0, state(obj))
-        got = imp(kind, str(p))
+        try:
+            got = imp(kind, str(p))
+        except Exception as e:
+            return label + ": importing the file just written raised %s: %s" % (type(e).__name__, str(e)[:120])
         if kind in ("pkl", "pklgz"):
             bad = same(state(obj), state(got)) if type(got) is type(obj) else "class " + type(got).__name__
         elif kind == "ljson":
